@@ -12,6 +12,7 @@ import (
 	"sort"
 	"strings"
 	"sync"
+	"sync/atomic"
 	"time"
 
 	"github.com/go-logr/logr"
@@ -362,6 +363,71 @@ func c16Run(c *fw.Case, env *fw.Env) *fw.Obs {
 		}
 		o.Ev("merge_conflicts", int64(len(out.conflicts)))
 		o.Key("merge/b%d/br%d/p%d/y%d", p.Blocks, mp.Branches, p.Procs, p.Yield)
+	case "merge-error", "diff-error":
+		// a store that starts failing at its n-th operation: every differ goroutine then reports an error
+		rng := c.Rand()
+		mp := c05Params{Rows: 3*255 - 20, NCols: 3, PK: []int{0}, Branches: 2 + int(c.Seed%2), Ops: []string{"edit", "add", "remove"}, Intensity: 10, Output: "rows"}
+		base, branches, _ := genMergeTuple(rng, &mp)
+		db := mon.NewMemStore()
+		baseSum, baseT, err := ingestTbl(db, base)
+		if err != nil {
+			o.Status = "inconclusive"
+			o.Note = err.Error()
+			return o
+		}
+		var sums [][]byte
+		var tbls []*objects.Table
+		for _, b := range branches {
+			s, t, err := ingestTbl(db, b)
+			if err != nil {
+				o.Status = "inconclusive"
+				o.Note = err.Error()
+				return o
+			}
+			sums = append(sums, s)
+			tbls = append(tbls, t)
+		}
+		fdb := &mon.FaultObjStore{S: db, F: &mon.Faults{StopAt: int64(p.FailAt)}}
+		mergeStuckAfter = 25 * time.Second
+		defer func() { mergeStuckAfter = 180 * time.Second }()
+		var merr error
+		var pn string
+		var stuck bool
+		finished, dump := withWatchdog(90*time.Second, func() {
+			pn = fw.Catch(func() {
+				if p.Pipeline == "merge-error" {
+					_, merr = runMergePkg(fdb, baseSum, baseT, sums, tbls, "rows")
+				} else {
+					_, merr, stuck = runDiff(fdb, fdb, sums[0], baseSum)
+				}
+			})
+		})
+		o.Ev("oracle_evaluations", 1)
+		o.Ev("runs_"+p.Pipeline, 1)
+		if !finished || stuck || (merr != nil && strings.HasPrefix(merr.Error(), "STUCK")) {
+			if dump == "" {
+				buf := make([]byte, 1<<20)
+				dump = string(buf[:runtime.Stack(buf, true)])
+			}
+			if parkedInWrgl(dump) {
+				o.Violate("deadlock/"+p.Pipeline, "store operations fail from #%d on (%d branches): the pipeline never finished; wrgl goroutines are parked on channel operations\n%s", p.FailAt, mp.Branches, tailStr(dump, 5000))
+			} else {
+				o.Status = "inconclusive"
+				o.Note = "pipeline stuck without parked wrgl goroutines"
+			}
+			return o
+		}
+		if pn != "" {
+			o.Violate("panic/"+p.Pipeline, "%s", pn)
+			return o
+		}
+		if atomic.LoadInt64(&fdb.F.N) >= int64(p.FailAt) && merr == nil {
+			o.Violate("worker-error-not-reported/"+p.Pipeline, "store operations failed from #%d on but no error was reported", p.FailAt)
+		}
+		if merr != nil {
+			o.Ev("injected_errors_reported", 1)
+		}
+		o.Key("%s/f%d/br%d", p.Pipeline, p.FailAt, mp.Branches)
 	case "cli":
 		// the real commands with their default progress bars and several real workers
 		root := filepath.Join(env.Dir, "repo-"+c.ID)
@@ -463,6 +529,11 @@ func init() {
 			}
 			for j := 1; j <= writes; j += step {
 				l.Add("ingest-error", c16Params{Pipeline: "ingest-error", Blocks: 10, Workers: []int{4, 6, 10}[j%3], Procs: 4, Yield: uint64(100 + j), Store: "mem", FailAt: j}, 0)
+			}
+			for _, fa := range []int{1, 3, 5, 8, 12, 20, 40, 80} {
+				l.Add("merge-error", c16Params{Pipeline: "merge-error", Procs: 4, FailAt: fa}, 0)
+				l.Add("merge-error", c16Params{Pipeline: "merge-error", Procs: 2, FailAt: fa + 1}, 0)
+				l.Add("diff-error", c16Params{Pipeline: "diff-error", Procs: 4, FailAt: fa}, 0)
 			}
 			for i := 0; i < l.N(12, 120); i++ {
 				l.Add("diff", c16Params{Pipeline: "diff", Blocks: 2 + rng.Intn(3), Procs: procSet[rng.Intn(4)], Yield: uint64(1 + rng.Intn(1<<30))}, 0)
